@@ -72,6 +72,7 @@ class FakeW:
 TREES = {
     "empty-dirs": {"e1/": None, "e2/inner/": None, "f.txt": b"x"},
     "nested": {"a/b/c/deep.bin": content(300, 1), "a/b/sib.txt": b"", "top": content(17000, 2)},
+    "special-contents": {"z/nul-record": b"\0" * 16384, "z/data+nul": content(16384, 3) + b"\0" * 16384, "z/nul+data": b"\0" * 300 + b"x", "ff": b"\xff" * 70},
     "odd-names": {"with space.txt": b"1", "uni-é中.txt": b"2", "-dash": b"3", ".hidden": b"4", "dir with space/-x": b"5",
                   "tab\tname": b"6"},
 }
@@ -80,8 +81,32 @@ TEXTS = ["hello", "it's", 'say "hi"', "both ' and \"", "back\\slash", "new\nline
          "rtl‮evil", "café", "\U0001f600 emoji", " sep", "\x7f", "a" * 300, "\r\n", "\\x41", "'", '"', "\\'"]
 
 
+# "any content": byte patterns that a storage or transport shortcut could treat specially (runs of NUL up to and across the
+# 16384-byte record size, holes at the start / in the middle / at the end, 0xff runs, line endings, archive magic)
+CHUNK = 16384
+CONTENTS = {
+    "nul-1000": b"\0" * 1000,
+    "nul-record": b"\0" * CHUNK,
+    "nul-record+1": b"\0" * (CHUNK + 1),
+    "data+nul-record": content(CHUNK) + b"\0" * CHUNK,
+    "data+nul-byte": content(CHUNK) + b"\0",
+    "nul-record+data": b"\0" * CHUNK + content(100),
+    "data+nul-record+data": content(CHUNK) + b"\0" * CHUNK + content(5),
+    "data-ending-in-nuls": content(500) + b"\0" * 40,
+    "ff-record+1": b"\xff" * (CHUNK + 1),
+    "crlf": b"line1\r\nline2\nline3\r" * 50 + b"\x1a tail",
+    "zip-magic": b"PK\x03\x04" + content(200) + b"PK\x05\x06" + b"\0" * 18,
+    "one-byte-run": b"a" * (2 * CHUNK),
+}
+
+
 def make_payload(src, spec):
     kind, arg = spec
+    if kind == "cfile":
+        name = "payload.bin"
+        with open(os.path.join(src, name), "wb") as f:
+            f.write(CONTENTS[arg])
+        return name
     if kind == "file":
         name = "payload.bin"
         with open(os.path.join(src, name), "wb") as f:
@@ -449,7 +474,7 @@ def run(chk):
     keys = set()
     n = 0
     lens = {}
-    specs = [("file", s) for s in SIZES] + [("dir", k) for k in sorted(TREES)]
+    specs = [("file", s) for s in SIZES] + [("cfile", k) for k in sorted(CONTENTS)] + [("dir", k) for k in sorted(TREES)]
     for spec in specs:
         for seg in (None, 1000, 1, 7) if (spec[0] == "file" and spec[1] <= 1) else (None, 1000, 16427):
             v, data_len, ack_len = honest(spec, seg)
@@ -459,9 +484,9 @@ def run(chk):
             for x in v:
                 x["case"] = dict(spec=list(spec), seg=seg)
             viol.extend(v)
-    chk.add_enum("honest-transfers", n, keys, "file sizes %r and directory trees %r sent by the real Sender._send_file (FileSender, zipstream) and received by the "
+    chk.add_enum("honest-transfers", n, keys, "file sizes %r, special contents %r and directory trees %r sent by the real Sender._send_file (FileSender, zipstream) and received by the "
                  "real Receiver over a real transit connection, under several TCP segmentations: both succeed and the received tree equals the sent tree" % (
-                     SIZES, sorted(TREES)), [list(s) for s in specs[:3]], viol, extra=dict(stream_lengths={"%s:%s" % k: v for k, v in lens.items()}))
+                     SIZES, sorted(CONTENTS), sorted(TREES)), [list(s) for s in specs[:3]], viol, extra=dict(stream_lengths={"%s:%s" % k: v for k, v in lens.items()}))
     # faults
     tasks = []
     fspecs = [("file", s) for s in (SIZES if chk.tier != "quick" else [0, 1, 16384, 16385, 40000])] + [("dir", "nested")]
